@@ -251,6 +251,7 @@ class TypedDictValidator(_ToTupleValidator[_TDT]):
         return (
             type(self) == type(other)
             and self.schema == other.schema
+            and self.required_keys == other.required_keys
             and self.validate_object == other.validate_object
             and self.validate_object_async == other.validate_object_async
             and self.fail_on_unknown_keys == other.fail_on_unknown_keys
